@@ -32,6 +32,12 @@ package table
 // route must be in a produced message whose Serialize returns an error (what the sender logs).
 // Between lo and hi both outcomes are accepted.
 //
+// Path shapes. Paths are built the ways gobgp builds them: attributes in type order or with
+// MP_REACH_NLRI last (ProcessMessage), derived from a stored path by Clone + setPathAttr/delPathAttr
+// (policy), with the leftmost AS put in front by Path.PrependAsn on a clone (UpdatePathAttrs for
+// every eBGP peer), withdrawals as bare paths or as Clone(true) of the announced path; some lists
+// force one attribute hash on all paths (SetHash) so that grouping must rely on the byte compare.
+//
 // End-of-RIB. A family's marker must be present iff the input has one; an input with one marker
 // must give exactly one; n > 1 identical markers of one family may be merged (idempotent).
 
